@@ -404,13 +404,22 @@ func (e *envModel) unmarshal(fr *frame, format string, data []value, target valu
 	}
 	src := tr.doc.obj
 	// the encoded value may itself have been a pointer (json.MarshalIndent(sh, ...))
+	var srcT types.Type
 	if si, ok := src.(iface); ok {
-		src = si.v
+		src, srcT = si.v, si.t
 	}
 	if sp, ok := src.(*value); ok && sp != nil {
 		if _, dstIsPtr := (*dst).(*value); !dstIsPtr {
 			src = *sp
+			if srcT != nil {
+				srcT = deref(srcT)
+			}
 		}
+	}
+	if srcT != nil && !types.Identical(srcT, deref(it.t)) {
+		// written from one type, read into another (a "file format" struct): fields travel by
+		// their document names; names the writer does not have come back as zero values
+		src = convertDecoded(deepCopy(src), srcT, deref(it.t), format)
 	}
 	e.decoded++
 	if tr.doc.broken != "" {
@@ -425,6 +434,78 @@ func (e *envModel) unmarshal(fr *frame, format string, data []value, target valu
 	}
 	i.assignDecodedFmt(dst, deepCopy(src), it.t, format)
 	return iface{}
+}
+
+// docFieldName: the name a struct field has in a document of the given format ("-" = absent).
+func docFieldName(st *types.Struct, k int, format string) string {
+	tag := st.Tag(k)
+	if p := strings.Index(tag, format+`:"`); p >= 0 {
+		rest := tag[p+len(format)+2:]
+		if e := strings.IndexByte(rest, '"'); e >= 0 {
+			rest = rest[:e]
+		}
+		if c := strings.IndexByte(rest, ','); c >= 0 {
+			rest = rest[:c]
+		}
+		if rest != "" {
+			return rest
+		}
+	}
+	if format == "yaml" {
+		return strings.ToLower(st.Field(k).Name())
+	}
+	return st.Field(k).Name()
+}
+
+// convertDecoded re-shapes a decoded value from the writer's type to the reader's type.
+func convertDecoded(v value, from, to types.Type, format string) value {
+	switch tt := to.Underlying().(type) {
+	case *types.Struct:
+		ft, ok := from.Underlying().(*types.Struct)
+		sv, ok2 := v.(structure)
+		if !ok || !ok2 {
+			return zero(to)
+		}
+		out := zero(to).(structure)
+		for k := 0; k < tt.NumFields(); k++ {
+			name := docFieldName(tt, k, format)
+			if name == "-" {
+				continue
+			}
+			for j := 0; j < ft.NumFields(); j++ {
+				if docFieldName(ft, j, format) == name {
+					out[k] = convertDecoded(sv[j], ft.Field(j).Type(), tt.Field(k).Type(), format)
+				}
+			}
+		}
+		return out
+	case *types.Slice:
+		ft, ok := from.Underlying().(*types.Slice)
+		sl, ok2 := v.([]value)
+		if !ok || !ok2 {
+			return zero(to)
+		}
+		if sl == nil {
+			return []value(nil)
+		}
+		out := make([]value, len(sl))
+		for k := range sl {
+			out[k] = convertDecoded(sl[k], ft.Elem(), tt.Elem(), format)
+		}
+		return out
+	case *types.Pointer:
+		if fp, ok := from.Underlying().(*types.Pointer); ok {
+			if p, ok := v.(*value); ok && p != nil {
+				c := convertDecoded(*p, fp.Elem(), tt.Elem(), format)
+				return &c
+			}
+		}
+		return zero(to)
+	}
+	if types.Identical(from.Underlying(), to.Underlying()) {
+		return v
+	}
+	return zero(to)
 }
 
 // blankYAML: concrete bytes holding only white space and comment lines (no document).
